@@ -18,26 +18,29 @@ import (
 )
 
 type c18ReLoop struct {
-	NSucc  int  `json:"nsucc"`          // successful pings while its session was up
-	Failed bool `json:"failed"`         // a ping of this loop failed
-	Closed bool `json:"closed"`         // ... and the loop answered it with Close
-	Late   int  `json:"late,omitempty"` // pings after its session was over (+ grace)
-	LateOk int  `json:"late_ok,omitempty"`
-	SrvN   int  `json:"srvn"`  // keep-alives the server read on this session's connection
-	Err    int  `json:"errs"`  // ErrorHandler calls while this session was the current one
-	Disc   int  `json:"discs"` // Disconnected events while this session was the current one
+	Session int  `json:"session"`        // index of the established session it belongs to
+	Seen    bool `json:"seen"`           // a loop made calls in that session (false: none was seen, an empty log stands for it)
+	NSucc   int  `json:"nsucc"`          // successful pings while its session was up
+	Failed  bool `json:"failed"`         // a ping of this loop failed
+	Closed  bool `json:"closed"`         // ... and the loop answered it with Close
+	Late    int  `json:"late,omitempty"` // pings after its session was over (+ grace)
+	LateOk  int  `json:"late_ok,omitempty"`
+	SrvN    int  `json:"srvn"`  // keep-alives the server read on this session's connection
+	Err     int  `json:"errs"`  // ErrorHandler calls while this session was the current one
+	Disc    int  `json:"discs"` // Disconnected events while this session was the current one
 }
 
 type c18ReObs struct {
-	Attempts   []int       `json:"attempts"`              // 0 established, 1 connect failed, 2 hook failed (Resume returned its error)
-	Loops      []c18ReLoop `json:"loops"`                 // keep-alive loops seen, in order of their first call
-	Sessions   int         `json:"sessions"`              // sessions established (Connect / Resume returned nil)
-	LostLast   bool        `json:"lost_last,omitempty"`   // the last session was reported lost before the harness ended it
-	LastSrvN   int         `json:"last_srvn"`             // keep-alive bytes on the last session's connection
-	LastUpUs   int64       `json:"last_up_us"`            // how long the last session was up
-	OpenFailed []int       `json:"open_failed,omitempty"` // server connections of failed attempts the client never closed
-	GateMissed bool        `json:"gate_missed,omitempty"` // late variants: the loop could not be stopped where intended
-	LateClose  bool        `json:"late_close,omitempty"`  // latefail: the loop answered its failed late ping with Close
+	Attempts     []int       `json:"attempts"`                // 0 established, 1 connect failed, 2 hook failed (Resume returned its error)
+	Loops        []c18ReLoop `json:"loops"`                   // keep-alive loops seen, in order of their first call
+	Sessions     int         `json:"sessions"`                // sessions established (Connect / Resume returned nil)
+	LostLast     bool        `json:"lost_last,omitempty"`     // the last session was reported lost before the harness ended it
+	LastSrvN     int         `json:"last_srvn"`               // keep-alive bytes on the last session's connection
+	LastUpUs     int64       `json:"last_up_us"`              // how long the last session was up
+	OpenFailed   []int       `json:"open_failed,omitempty"`   // server connections of failed attempts the client never closed
+	GateMissed   bool        `json:"gate_missed,omitempty"`   // late variants: the loop could not be stopped where intended
+	FailedStates []int       `json:"failed_states,omitempty"` // client state right after each attempt whose hook failed
+	LateClose    bool        `json:"late_close,omitempty"`    // latefail: the loop answered its failed late ping with Close
 }
 
 func kaSessionTail(clear []byte) []byte {
@@ -58,7 +61,7 @@ func kaSessionTail(clear []byte) []byte {
 func runKeepaliveRe(in *c18In, attempt int) (Sx, *c18Obs) {
 	iv := time.Duration(in.IvUs) * time.Microsecond
 	setupErr := func(msg string) (Sx, *c18Obs) {
-		return L(L(L(Z(-2), SBytes(msg))), L()), &c18Obs{Attempts: attempt, SetupErr: msg, CloseUs: -1, ReturnUs: -1, Re: &c18ReObs{}}
+		return L(L(L(Z(-2), SBytes(msg))), L(), L()), &c18Obs{Attempts: attempt, SetupErr: msg, CloseUs: -1, ReturnUs: -1, Re: &c18ReObs{}}
 	}
 	groups := [][]sItem{
 		{hdrItem(), {T: "features", Mechs: []string{"PLAIN"}}},
@@ -179,13 +182,14 @@ func runKeepaliveRe(in *c18In, attempt int) (Sx, *c18Obs) {
 			return setupErr("Connect did not return the hook's error")
 		}
 		ro.Attempts = append(ro.Attempts, 2)
+		ro.FailedStates = append(ro.FailedStates, int(xmpp.VerifConnState(&client.EventManager)))
 		failedConns = append(failedConns, 0)
 		srvConn = []int{1}
 		nconn = 2
 	}
 	if err := client.Connect(); err != nil {
 		o := &c18Obs{Attempts: attempt, SetupErr: "connect: " + err.Error(), CloseUs: -1, ReturnUs: -1, ConnectErr: true, Re: ro}
-		return L(L(L(Z(-2), SBytes("connect"))), L()), o
+		return L(L(L(Z(-2), SBytes("connect"))), L(), L()), o
 	}
 	mu.Lock()
 	ro.Attempts = append(ro.Attempts, 0)
@@ -308,6 +312,7 @@ func runKeepaliveRe(in *c18In, attempt int) (Sx, *c18Obs) {
 			break
 		}
 		ro.Attempts = append(ro.Attempts, 2)
+		ro.FailedStates = append(ro.FailedStates, int(xmpp.VerifConnState(&client.EventManager)))
 		failedConns = append(failedConns, idx)
 		time.Sleep(5 * time.Millisecond)
 	}
@@ -378,71 +383,108 @@ func runKeepaliveRe(in *c18In, attempt int) (Sx, *c18Obs) {
 	mu.Lock()
 	reps := append([]stamp{}, reports...)
 	mu.Unlock()
+	// which session a loop belongs to: the one that was the current one when the loop made its first call.
+	// A loop that never got to ping (a short session on a loaded machine) is invisible: its session simply
+	// has no loop here. Only MORE than one loop in a session is a statement about the code.
+	sessLoops := make([][]string, len(est))
+	for _, g := range order {
+		first := byG[g][0].at
+		k := 0
+		for k+1 < len(est) && !first.Before(est[k+1]) {
+			k++
+		}
+		if len(est) > 0 {
+			sessLoops[k] = append(sessLoops[k], g)
+		}
+	}
+	// the one ping a loop may still make after its session ended (it was past its poll of quit) can be the
+	// only call a starved loop ever makes: then it shows up in the NEXT session's time; give it back
+	for k := 1; k < len(sessLoops); k++ {
+		if len(sessLoops[k]) > 1 && len(sessLoops[k-1]) == 0 {
+			for i, g := range sessLoops[k] {
+				if len(byG[g]) == 1 && (byG[g][0].code == kaPingOk || byG[g][0].code == kaPingFail) {
+					sessLoops[k-1] = append(sessLoops[k-1], g)
+					sessLoops[k] = append(append([]string{}, sessLoops[k][:i]...), sessLoops[k][i+1:]...)
+					break
+				}
+			}
+		}
+	}
 	var loopsSx []Sx
-	for k, g := range order {
-		// loop k belongs to the k-th established session; over = when that session was seen to be over
-		over := ends[len(ends)-1]
-		if k < len(ends) {
-			over = ends[k]
-			if k < len(ends)-1 && !endsExact && !late {
-				over = over.Add(40 * time.Millisecond)
-			}
+	for k := range est {
+		gs := sessLoops[k]
+		if len(gs) == 0 {
+			gs = []string{""} // no visible loop: an empty log
 		}
-		lp := c18ReLoop{}
-		var before, after []kaEv
-		for _, e := range byG[g] {
-			if e.at.After(over) {
-				after = append(after, e)
+		for li, g := range gs {
+			// over = when session k was seen to be over
+			over := ends[len(ends)-1]
+			if k < len(ends) {
+				over = ends[k]
+				if k < len(ends)-1 && !endsExact && !late {
+					over = over.Add(40 * time.Millisecond)
+				}
+			}
+			lp := c18ReLoop{Session: k, Seen: g != ""}
+			var before, after []kaEv
+			for _, e := range byG[g] {
+				if e.at.After(over) {
+					after = append(after, e)
+					if e.code == kaPingOk || e.code == kaPingFail {
+						lp.Late++
+					}
+					if e.code == kaPingOk {
+						lp.LateOk++
+					}
+				} else {
+					before = append(before, e)
+					if e.code == kaPingOk && !lp.Failed {
+						lp.NSucc++
+					}
+				}
+				if e.code == kaPingFail {
+					lp.Failed = true
+				}
+				if e.code == kaClose && lp.Failed {
+					lp.Closed = true
+				}
+			}
+			seq := append(append(before, kaEv{code: kaReturn}), after...)
+			var wire []byte
+			if k < len(srvConn) && srvConn[k] < len(logs) {
+				wire = kaSessionTail(logs[srvConn[k]].ClearBy)
+			}
+			npings := 0
+			for _, e := range byG[g] {
 				if e.code == kaPingOk || e.code == kaPingFail {
-					lp.Late++
-				}
-				if e.code == kaPingOk {
-					lp.LateOk++
-				}
-			} else {
-				before = append(before, e)
-				if e.code == kaPingOk && !lp.Failed {
-					lp.NSucc++
+					npings++
 				}
 			}
-			if e.code == kaPingFail {
-				lp.Failed = true
+			wsx, units := kaWireSx(wire, npings, false)
+			if npings == 0 {
+				// an invisible loop: what the server read on this connection is not its doing (compared as none)
+				wsx, units = L(Z(0), B(kaAllWS(wire))), 0
 			}
-			if e.code == kaClose && lp.Failed {
-				lp.Closed = true
-			}
-		}
-		seq := append(append(before, kaEv{code: kaReturn}), after...)
-		var wire []byte
-		if k < len(srvConn) && srvConn[k] < len(logs) {
-			wire = kaSessionTail(logs[srvConn[k]].ClearBy)
-		}
-		npings := 0
-		for _, e := range byG[g] {
-			if e.code == kaPingOk || e.code == kaPingFail {
-				npings++
-			}
-		}
-		wsx, units := kaWireSx(wire, npings, false)
-		lp.SrvN = units
-		if k < len(est) {
-			lo := est[k]
-			hi := time.Now().Add(time.Hour)
-			if k+1 < len(est) {
-				hi = est[k+1]
-			}
-			for _, r := range reps {
-				if r.at.After(lo) && !r.at.After(hi) {
-					if r.disc {
-						lp.Disc++
-					} else {
-						lp.Err++
+			lp.SrvN = units
+			if li == 0 {
+				lo := est[k]
+				hi := time.Now().Add(time.Hour)
+				if k+1 < len(est) {
+					hi = est[k+1]
+				}
+				for _, r := range reps {
+					if r.at.After(lo) && !r.at.After(hi) {
+						if r.disc {
+							lp.Disc++
+						} else {
+							lp.Err++
+						}
 					}
 				}
 			}
+			ro.Loops = append(ro.Loops, lp)
+			loopsSx = append(loopsSx, L(kaEvsSx(seq), wsx, L(), L(Zi(lp.Err), Zi(lp.Disc))))
 		}
-		ro.Loops = append(ro.Loops, lp)
-		loopsSx = append(loopsSx, L(kaEvsSx(seq), wsx, L(), L(Zi(lp.Err), Zi(lp.Disc))))
 	}
 	for _, idx := range failedConns {
 		if idx < len(logs) && logs[idx].Ended == "" {
@@ -474,7 +516,25 @@ func runKeepaliveRe(in *c18In, attempt int) (Sx, *c18Obs) {
 			left = append(left, B(open))
 		}
 	}
-	return L(LS(loopsSx), LS(left)), o
+	// per attempt: the client's state afterwards (compared for the attempts whose hook failed)
+	var states []Sx
+	si := 0
+	for _, a := range ro.Attempts {
+		switch a {
+		case 0:
+			states = append(states, Z(1))
+		case 1:
+			states = append(states, Z(2))
+		default:
+			st := 1
+			if si < len(ro.FailedStates) && ro.FailedStates[si] == int(xmpp.StateDisconnected) {
+				st = 0
+			}
+			si++
+			states = append(states, Zi(st))
+		}
+	}
+	return L(LS(loopsSx), LS(left), LS(states)), o
 }
 
 // reInputSx: the history of attempts, each with the loop it would run (observed pings, how it ended).
@@ -499,8 +559,11 @@ func reInputSx(in *c18In, o *c18Obs) Sx {
 		lp := c18ReLoop{}
 		end := 1
 		if a == 0 {
-			if k < len(ro.Loops) {
-				lp = ro.Loops[k]
+			for _, x := range ro.Loops {
+				if x.Session == k {
+					lp = x
+					break
+				}
 			}
 			switch {
 			case k == nsess-1:
@@ -558,8 +621,16 @@ func reOracle(in *c18In, obs Sx) (string, string) {
 		return fmt.Sprintf("session %d, healthy and untouched by the server, was reported lost %d ms after it came up: %s", ro.Sessions, ro.LastUpUs/1000, how), "close-hits-next-session"
 	}
 	// one keep-alive loop per established session
-	if len(ro.Loops) != ro.Sessions {
-		return fmt.Sprintf("%d sessions established on the client (attempts %v: 0 ok, 2 = Resume returned the PostResumeHook's error), %d keep-alive loops pinged: a Resume that reports failure leaves its keep-alive behind and it follows the transport to the next connection", ro.Sessions, ro.Attempts, len(ro.Loops)), "keepalive-loop-count"
+	perSession := make([]int, ro.Sessions)
+	for _, lp := range ro.Loops {
+		if lp.Seen && lp.Session < len(perSession) {
+			perSession[lp.Session]++
+		}
+	}
+	for k, n := range perSession {
+		if n > 1 {
+			return fmt.Sprintf("%d keep-alive loops were pinging during session %d of %d (attempts %v: 0 ok, 1 connect failed, 2 = the hook's error was returned): a loop that does not belong to the session - left behind by an attempt that reported failure, or by an earlier session - follows the transport to this connection", n, k+1, ro.Sessions, ro.Attempts), "keepalive-loop-count"
+		}
 	}
 	// ... at the configured interval on the live session, not a multiple of it
 	if int64(ro.LastSrvN) > ro.LastUpUs/iv+2 {
@@ -569,6 +640,7 @@ func reOracle(in *c18In, obs Sx) (string, string) {
 		return "the session was over (loss reported, re-dial refused) when the held keep-alive finally ran and failed for want of a connection; the loop answered it with transport.Close(), which then acts on whatever connection the client has by then", "close-after-session-end"
 	}
 	for k, lp := range ro.Loops {
+		k = lp.Session
 		if k == 0 && (in.Variant == "lateping" || in.Variant == "latefail") && lp.Late <= 1 {
 			continue // the one ping that was already past the poll of quit
 		}
@@ -580,8 +652,16 @@ func reOracle(in *c18In, obs Sx) (string, string) {
 			return fmt.Sprintf("keep-alive loop %d pinged %d times %s", k+1, lp.Late, when), "ping-after-session-end"
 		}
 	}
-	if last := ro.Loops[len(ro.Loops)-1]; last.NSucc == 0 && ro.LastUpUs/iv >= 6 {
+	if len(ro.Loops) == 0 {
+		return "no session was observed", "setup"
+	}
+	if last := ro.Loops[len(ro.Loops)-1]; last.NSucc == 0 && ro.LastUpUs/iv >= 8 && ro.LastUpUs >= 40000 {
 		return fmt.Sprintf("the last session was up for %d intervals without a keep-alive", ro.LastUpUs/iv), "too-few-pings"
+	}
+	for _, st := range ro.FailedStates {
+		if st != int(xmpp.StateDisconnected) {
+			return fmt.Sprintf("Connect/Resume returned the hook's error and closed the session it had established, but the client's state stays %d (StateSessionEstablished = %d): the session is reported up for good, a StreamManager refuses to connect this client again", st, int(xmpp.StateSessionEstablished)), "failed-attempt-state-not-disconnected"
+		}
 	}
 	if len(ro.OpenFailed) > 0 {
 		which := "Resume"
